@@ -382,4 +382,65 @@ MUTANTS = [
 
             impl Serializable for PrivateKey {
                 type OutputSize = $privkey_size;""")]),
+    # ------------------------------------------------------------------ C16
+    dict(name='c16-exporter-drop-deleted', expect=[('C16', 'R16.1')],
+         note='memory hygiene only; invisible to any functional test',
+         edits=[(SETUP, """// Zero exporter secrets on drop
+impl<K: KdfTrait> Drop for ExporterSecret<K> {
+    fn drop(&mut self) {
+        self.0.zeroize();
+    }
+}
+""", "")]),
+    dict(name='c16-aeadkey-drop-emptied', expect=[('C16', 'R16.1')],
+         note='memory hygiene only',
+         edits=[(AEAD, """impl<A: Aead> Drop for AeadKey<A> {
+    fn drop(&mut self) {
+        self.0.zeroize();
+    }
+}""", """impl<A: Aead> Drop for AeadKey<A> {
+    fn drop(&mut self) {
+        let _ = &self.0;
+    }
+}""")]),
+    dict(name='c16-nonce-zeroize-first-byte-only', expect=[('C16', 'R16.1')],
+         note='only the first byte of the base nonce is wiped',
+         edits=[(AEAD, """impl<A: Aead> Drop for AeadNonce<A> {
+    fn drop(&mut self) {
+        self.0.zeroize();
+    }
+}""", """impl<A: Aead> Drop for AeadNonce<A> {
+    fn drop(&mut self) {
+        self.0[..1].zeroize();
+    }
+}""")]),
+    dict(name='c16-sharedsecret-noop-zeroize', expect=[('C16', 'R16.1')],
+         note='SharedSecret::zeroize made a no-op; Drop still calls it',
+         edits=[(KEM, """    fn zeroize(&mut self) {
+        self.0.zeroize()
+    }""", """    fn zeroize(&mut self) {
+        let _ = self.0.len();
+    }""")]),
+    dict(name='c16-exporter-field-bare-array', expect=[('C16', 'R16.2')],
+         note='exporter secret stored as a bare GenericArray in the context: never wiped',
+         edits=[(AEAD, """    exporter_secret: ExporterSecret<Kdf>,
+    /// The running sequence number""", """    exporter_secret: crate::kdf::DigestArray<Kdf>,
+    /// The running sequence number"""),
+                (AEAD, """            base_nonce,
+            exporter_secret,
+            seq: <Seq as Default>::default(),""", """            base_nonce,
+            exporter_secret: exporter_secret.0.clone(),
+            seq: <Seq as Default>::default(),"""),
+                (AEAD, "SimpleHkdf::<Kdf>::from_prk(self.exporter_secret.0.as_slice()).unwrap();", "SimpleHkdf::<Kdf>::from_prk(self.exporter_secret.as_slice()).unwrap();"),
+                ]),
+    dict(name='c16-temp-key-forgotten', expect=[('C16', 'R16.2'), ('C16', 'R16.3')],
+         note='the temporary AEAD key is leaked un-wiped on the stack',
+         edits=[(SETUP, """    AeadCtx::new(&key, base_nonce, exporter_secret)
+}""", """    let ctx = AeadCtx::new(&key, base_nonce, exporter_secret);
+    core::mem::forget(key);
+    ctx
+}""")]),
+    dict(name='c16-temp-key-manuallydrop', expect=[('C16', 'R16.2')],
+         note='temporary key wrapped in ManuallyDrop: drop never runs',
+         edits=[(SETUP, "    let mut key = crate::aead::AeadKey::<A>::default();", "    let mut key = core::mem::ManuallyDrop::new(crate::aead::AeadKey::<A>::default());")]),
 ]
